@@ -61,6 +61,101 @@ func (m *Mutex) Unlock() {
 	s.yield()
 }
 
+// RWMutex is the simulated sync.RWMutex (writer-exclusive, many readers).
+type RWMutex struct {
+	real    sync.RWMutex
+	writer  bool
+	readers int
+}
+
+//go:norace
+func (m *RWMutex) Lock() {
+	s := S
+	if s == nil || s.cur == nil {
+		m.real.Lock()
+		return
+	}
+	s.yield()
+	if m.writer || m.readers > 0 {
+		s.blockOn(wRWWrite, m)
+	}
+	m.writer = true
+	m.real.Lock()
+}
+
+//go:norace
+func (m *RWMutex) Unlock() {
+	s := S
+	if s == nil || s.cur == nil {
+		m.real.Unlock()
+		return
+	}
+	if !m.writer {
+		panic("sync: Unlock of unlocked RWMutex")
+	}
+	m.real.Unlock()
+	m.writer = false
+	s.yield()
+}
+
+//go:norace
+func (m *RWMutex) RLock() {
+	s := S
+	if s == nil || s.cur == nil {
+		m.real.RLock()
+		return
+	}
+	s.yield()
+	if m.writer {
+		s.blockOn(wRWRead, m)
+	}
+	m.readers++
+	m.real.RLock()
+}
+
+//go:norace
+func (m *RWMutex) RUnlock() {
+	s := S
+	if s == nil || s.cur == nil {
+		m.real.RUnlock()
+		return
+	}
+	if m.readers <= 0 {
+		panic("sync: RUnlock of unlocked RWMutex")
+	}
+	m.real.RUnlock()
+	m.readers--
+	s.yield()
+}
+
+// RLocker returns a Locker for the read side.
+func (m *RWMutex) RLocker() sync.Locker { return rlocker{m} }
+
+type rlocker struct{ m *RWMutex }
+
+func (r rlocker) Lock()   { r.m.RLock() }
+func (r rlocker) Unlock() { r.m.RUnlock() }
+
+// Once is the simulated sync.Once: a second caller arriving while the first is
+// still inside f blocks until f has returned.
+type Once struct {
+	m    Mutex
+	done bool
+}
+
+//go:norace
+func (o *Once) Do(f func()) {
+	if o.done {
+		return
+	}
+	o.m.Lock()
+	defer o.m.Unlock()
+	if !o.done {
+		defer func() { o.done = true }()
+		f()
+	}
+}
+
 // WaitGroup is the simulated sync.WaitGroup.
 type WaitGroup struct {
 	real sync.WaitGroup
